@@ -402,8 +402,12 @@ class KexGroupExchange(KexDH):
 
             g = int(binascii.hexlify(payload[ptr:ptr + g_len]), 16)
             ptr += g_len
-        except struct.error:
+        except (struct.error, ValueError):
             raise KexDHException("Error while parsing modulus and generator during GEX init: %s" % str(traceback.format_exc())) from None
+
+        # A modulus this small cannot be used for the exchange below (and is certainly not a real group).
+        if p < 7:
+            raise KexDHException("Invalid modulus received during GEX init: %d" % p)
 
         # Now that we got the generator and modulus, perform the DH exchange
         # like usual.
